@@ -18,6 +18,27 @@ reg(Spec("C15", "c15_timer.cpp", needs=("lib",),
                       "Restart in free-running mode is outside the property's statement: reload or no-op are both accepted",
                       "mirror registers: while MU=1 a stale mirror may or may not catch up on an op that leaves the counter unchanged"]))
 
+reg(Spec("C16", "c16_btdmp.cpp", needs=("lib",),
+         cases={"quick": 2500, "thorough": 60000},
+         rule="rapidcheck-generated histories (<=120 ops: send of serially tagged words, flush, enable/disable, Tick xN with N "
+              "aimed at frame boundaries, Skip(k) with k in {0,1,h-1,h,random} against the reported horizon) on the real "
+              "Teakra::Btdmp with a period chosen per history from {1,2,3,7,1000,4096,65535} U small U uniform; oracle = "
+              "FIFO/frame-clock model + twin doing k x Tick() for every Skip(k) + conservation of words after a final drain. "
+              "Non-trivial = at least one frame carrying a real (non-filler) word; distinct by hash of (period, op list).",
+         assumptions=["period >= 1 and fixed before the first tick (not reachable from MMIO; the source calls it a placeholder)",
+                      "the frame clock only advances while transmission is enabled and keeps its phase across disable/enable",
+                      "per skip at most min(h, 3*period+5, 20000) cycles so the ticking twin stays affordable"]))
+
+reg(Spec("C14", "c14_apbp.cpp", needs=("lib",),
+         cases={"quick": 4000, "thorough": 100000},
+         rule="rapidcheck-generated histories (<=60 ops) of host API calls (SendData/RecvData/PeekRecvData/Set/Clear/MaskSemaphore) "
+              "and DSP-side MMIO accesses (REPLYi write/read-back, CMDi read, 0x0CC/0x0CE/0x0D0 writes, CIi bits of 0x0D4) through the "
+              "host MMIO accessor, its 0x800 mirrors and the DSP data path, on one real Teakra instance re-initialised per case; "
+              "after every op all observable APBP state is compared with a two-direction mailbox/semaphore model and the interrupt "
+              "rule is checked (ICU IRQ 14 / host handlers). Non-trivial = history with >=1 send and >=1 semaphore op; distinct by op-list hash.",
+         assumptions=["channel index < 3 (the API contract)", "0x0D8 bit 9 (S', documented as the CPU-side flag but wired to the DSP-side one) is not checked",
+                      "the signal flag of the dsp->cpu direction has no register; it is checked through the interrupt rule only"]))
+
 # Properties not (yet) claimed. Kept current by hand; every id in properties.jsonl is either in SPECS or here.
 _PENDING = "check not built yet in this round; planned with property-based testing per DESIGN.md"
 NOT_APPLICABLE = [{"property_id": "C%02d" % i, "reason": _PENDING} for i in range(1, 21) if "C%02d" % i not in SPECS]
